@@ -7,19 +7,38 @@
 //	line  <fn> <tn> <M> <D>       schedule.NewLineConf{From: fn/M, To: tn/M, Duration: D}
 //	step  <fn> <tn> <M> <st> <D>  schedule.NewStepConf{From, To, Step: st, Duration: D}
 //	once  <n>                     schedule.NewOnceConf{Times: n}
+//	conc  <G> <rounds> <one of the four kinds above>
+//	                              the sequential observation of the inner case, then, `rounds` times:
+//	                              a fresh schedule that nobody Start()s (the engine never does: the
+//	                              shared rps schedule starts itself inside the first Next) is drained by
+//	                              G goroutines released together by a spinning barrier
 //
 // Observation: "<Left() before start> <finish offset> <post> <n> <t0,t1,...|->" where the
 // t_k are the offsets (ns) from the Start instant of the tokens returned with ok=true, the
 // finish offset is the instant returned with the first ok=false, and post=1 iff Left() is 0
 // once exhausted ("left" otherwise) and three more Next calls return the same instant with
 // ok=false ("next" otherwise).
+//
+// conc appends four 0/1 flags (1 = held in every round) and a detail field ("-" when all hold):
+//
+//	same  the multiset of token instants of the round, taken relative to ONE start instant
+//	      s := reported finish - sequential finish offset, equals the sequential token offsets
+//	      (every goroutine saw the same start; nothing lost, duplicated or shifted)
+//	fin   every goroutine got the same finish instant with its first ok=false, and Left() is 0
+//	lo    s and every token instant are not before the instant read just before the barrier release
+//	hi    s is not after the earliest instant read by a goroutine right after its first Next returned
+//	      (the start instant is taken inside the first Next)
 package main
 
 import (
 	"fmt"
 	"math"
+	"runtime"
+	"sort"
 	"strconv"
 	"strings"
+	"sync"
+	"sync/atomic"
 	"time"
 
 	"github.com/yandex/pandora/core"
@@ -66,6 +85,9 @@ func runCase(c string) (res string) {
 			res = "panic"
 		}
 	}()
+	if strings.HasPrefix(c, "conc ") {
+		return runConc(c)
+	}
 	s, ok := build(strings.Split(c, " "))
 	if !ok {
 		return "unknown-case"
@@ -101,6 +123,140 @@ func runCase(c string) (res string) {
 		ts = strings.Join(toks, ",")
 	}
 	return fmt.Sprintf("%d %d %s %d %s", left, int64(fin.Sub(t0)), post, len(toks), ts)
+}
+
+// runConc: see the package comment.
+func runConc(c string) string {
+	f := strings.Split(c, " ")
+	if len(f) < 4 {
+		return "unknown-case"
+	}
+	g, _ := strconv.Atoi(f[1])
+	rounds, _ := strconv.Atoi(f[2])
+	inner := strings.Join(f[3:], " ")
+	seq := runCase(inner)
+	sf := strings.Split(seq, " ")
+	if len(sf) != 5 || g < 1 {
+		return seq
+	}
+	seqFin, _ := strconv.ParseInt(sf[1], 10, 64)
+	var seqToks []int64
+	if sf[4] != "-" {
+		for _, t := range strings.Split(sf[4], ",") {
+			v, _ := strconv.ParseInt(t, 10, 64)
+			seqToks = append(seqToks, v)
+		}
+	}
+	sort.Slice(seqToks, func(i, j int) bool { return seqToks[i] < seqToks[j] })
+	if mp := runtime.GOMAXPROCS(0) - 1; g > mp && mp >= 1 {
+		g = mp
+	}
+	same, finOK, lo, hi := true, true, true, true
+	detail := "-"
+	note := func(flag *bool, round int, what string) {
+		*flag = false
+		if detail == "-" {
+			detail = fmt.Sprintf("round=%d:%s", round, strings.ReplaceAll(what, " ", "_"))
+		}
+	}
+	type result struct {
+		toks       []time.Time
+		fin        time.Time
+		afterFirst time.Time
+		panicked   bool
+	}
+	for round := 0; round < rounds; round++ {
+		s, ok := build(strings.Split(inner, " "))
+		if !ok {
+			return "unknown-case"
+		}
+		var (
+			wg      sync.WaitGroup
+			ready   atomic.Int32
+			release atomic.Bool
+		)
+		res := make([]result, g)
+		for w := 0; w < g; w++ {
+			wg.Add(1)
+			go func(w int) {
+				defer wg.Done()
+				defer func() {
+					if r := recover(); r != nil {
+						res[w].panicked = true
+					}
+				}()
+				ready.Add(1)
+				for !release.Load() { // spin: all goroutines make their FIRST Next at the same moment
+				}
+				first := true
+				for {
+					tx, ok := s.Next()
+					if first {
+						res[w].afterFirst = time.Now()
+						first = false
+					}
+					if !ok {
+						res[w].fin = tx
+						return
+					}
+					res[w].toks = append(res[w].toks, tx)
+					if len(res[w].toks) > maxDrain {
+						return
+					}
+				}
+			}(w)
+		}
+		for int(ready.Load()) != g {
+			runtime.Gosched()
+		}
+		before := time.Now() // the schedule cannot start earlier than this
+		release.Store(true)
+		wg.Wait()
+		fin := res[0].fin
+		firstReturn := res[0].afterFirst
+		var all []time.Time
+		for w := range res {
+			if res[w].panicked {
+				return "panic"
+			}
+			if !res[w].fin.Equal(fin) {
+				note(&finOK, round, fmt.Sprintf("goroutines report finish instants %v apart", res[w].fin.Sub(fin)))
+			}
+			if res[w].afterFirst.Before(firstReturn) {
+				firstReturn = res[w].afterFirst
+			}
+			all = append(all, res[w].toks...)
+		}
+		if s.Left() != 0 {
+			note(&finOK, round, "Left() of the drained schedule is not 0")
+		}
+		start := fin.Add(-time.Duration(seqFin)) // the one start instant all answers must share
+		if start.Before(before) {
+			note(&lo, round, fmt.Sprintf("start instant %v before the barrier release", before.Sub(start)))
+		}
+		if start.After(firstReturn) {
+			note(&hi, round, fmt.Sprintf("start instant %v after the first Next returned", start.Sub(firstReturn)))
+		}
+		offs := make([]int64, len(all))
+		for i, t := range all {
+			if t.Before(before) {
+				note(&lo, round, fmt.Sprintf("an operation is scheduled %v before the schedule could have started", before.Sub(t)))
+			}
+			offs[i] = int64(t.Sub(start))
+		}
+		sort.Slice(offs, func(i, j int) bool { return offs[i] < offs[j] })
+		if len(offs) != len(seqToks) {
+			note(&same, round, fmt.Sprintf("%d tokens handed out, %d when drained by one goroutine", len(offs), len(seqToks)))
+		} else {
+			for i := range offs {
+				if offs[i] != seqToks[i] {
+					note(&same, round, fmt.Sprintf("token at offset %d from the common start, sequential drain has %d", offs[i], seqToks[i]))
+					break
+				}
+			}
+		}
+	}
+	return fmt.Sprintf("%s %s %s %s %s %s", seq, vh.B(same), vh.B(finOK), vh.B(lo), vh.B(hi), detail)
 }
 
 // ---- generator ---------------------------------------------------------------------
@@ -172,6 +328,31 @@ func gen(r *vh.Rand, tier string) []string {
 	}
 	for _, k := range []int64{1, 2, 3, 10, 133, 1000, 10000} {
 		out = append(out, fmt.Sprintf("once %d", k))
+	}
+	// concurrent first Next on a schedule nobody started (small profiles, many rounds)
+	rounds := 250
+	if tier == "thorough" {
+		rounds = 2500
+	}
+	for _, in := range []string{"const 1000 1 1000000000", "const 37 10 2500000000", "line 0 400 1 500000000", "line 300 20 1 1500000000",
+		"line 7 7 1 3000000000", "once 64", "once 5", "step 100 300 1 100 250000000", "step 0 40 1 20 1500000000", "const 0 1 1000000"} {
+		out = append(out, fmt.Sprintf("conc %d %d %s", []int{2, 4, 8}[r.Intn(3)], rounds, in))
+	}
+	for i := 0; i < n/60; i++ {
+		d := pickDur(r)
+		secs := float64(d) / 1e9
+		g := []int{2, 3, 4, 6, 8}[r.Intn(5)]
+		switch r.Intn(4) {
+		case 0:
+			out = append(out, fmt.Sprintf("conc %d %d const %d 1 %d", g, rounds, pickRate(r, 1, secs, 200), d))
+		case 1:
+			out = append(out, fmt.Sprintf("conc %d %d line %d %d 1 %d", g, rounds, pickRate(r, 1, secs, 200), pickRate(r, 1, secs, 200), d))
+		case 2:
+			f := pickRate(r, 1, secs, 40)
+			out = append(out, fmt.Sprintf("conc %d %d step %d %d 1 %d %d", g, rounds, f, f+int64(r.Range(0, 3))*2, 2, d))
+		case 3:
+			out = append(out, fmt.Sprintf("conc %d %d once %d", g, rounds, r.Range(1, 300)))
+		}
 	}
 	for i := 0; i < n; i++ {
 		d := pickDur(r)
